@@ -333,3 +333,40 @@ Proof.
       destruct (take_units (units its) pos limit) as [p0 all]. cbn [snd] in A.
       subst. cbn in S. discriminate.
 Qed.
+
+(* ------------------------------------------------------------------ consistency, on the model *)
+
+Theorem counters_consistent_model : forall pre s tail len pos limit r p,
+  Z.of_nat (length pre) = p_bytes pos -> nonul s -> tail_ok s tail (len_sub len (p_bytes pos)) ->
+  u8_ncountmore (pre ++ s ++ tail) len pos limit = CRet r p -> r <> -1 ->
+  exists us1 us2 pre' s',
+    units (fst (decode s)) = us1 ++ us2 /\
+    s = pre' ++ s' /\ Z.of_nat (length pre') = r /\
+    r = bytes_of (concat us1) /\
+    p = mkPos (p_bytes pos + bytes_of (concat us1))
+              (p_cps pos + Z.of_nat (length (concat us1)))
+              (p_graphs pos + graphs_of (concat us1))
+              (p_cols pos + cols_of (concat us1)).
+Proof.
+  intros pre s tail len pos limit r p Hpre Hnn Hto Hc Hr.
+  pose proof (count_is_spec pre s tail len pos limit Hpre Hnn Hto) as M.
+  rewrite Hc in M.
+  destruct (spec_count s pos limit) as [|r' p'] eqn:S; cbn in M; [congruence|].
+  destruct M as [-> ->]. eapply counters_consistent. exact S.
+Qed.
+
+(* non-vacuity: "e U+0301 U+FF21" NUL-terminated, column limit 2: the count stops after the
+   first grapheme (3 bytes, 2 code points, 1 grapheme, 1 column) because the full-width
+   character would need columns 2..3 *)
+Lemma nonvacuous :
+  let s := [0x65; 0xcc; 0x81; 0xef; 0xbc; 0xa1] in
+  nonul s /\ tail_ok s [0] (len_sub None 0) /\
+  u8_count (s ++ [0]) (Some (limit_columns 2)) = CRet 3 (mkPos 3 2 1 1) /\
+  spec_count s pos_zero (Some (limit_columns 2)) = SOk 3 (mkPos 3 2 1 1) /\
+  length (units (fst (decode s))) = 2%nat.
+Proof.
+  cbv zeta. split; [repeat constructor; discriminate|].
+  split; [cbn; eauto|].
+  split; [vm_compute; reflexivity|].
+  split; vm_compute; reflexivity.
+Qed.
